@@ -832,7 +832,7 @@ void GridFourier::setAnisotropicRefinement(TypeDepth type, int min_growth, int o
     int level = 0;
     do{
         updateGrid(++level, type, weights, level_limits);
-    }while(getNumNeeded() < min_growth);
+    }while(getNumNeeded() < min_growth and not MultiIndexManipulations::isLimitSaturated(tensors, updated_tensors, level_limits));
 }
 
 void GridFourier::clearRefinement(){
